@@ -4,7 +4,7 @@
     two bodies); [check] re-runs the model on the same input and compares. *)
 From Coq Require Import List NArith ZArith Bool String.
 From Coq Require Import Strings.Byte.
-From Paloma Require Import Base.Corr Base.Sha256 Skyway.Claims.
+From Paloma Require Import Base.Corr Base.Sha256 Skyway.Claims Skyway.ClaimsGate.
 Import ListNotations.
 Open Scope Z_scope.
 
@@ -30,7 +30,17 @@ Inductive case :=
 | CHash (c : cl) (got : list Z)
 | CKey (K : list Z) (c : cl) (got : list Z)
 | CEffect (c1 c2 : cl) (real_equal : bool)
-| CHist (K : list Z) (ops : list (Z * cl)) (results : list bool) (stored : list (list Z * list Z * Z)).
+| CHist (K : list Z) (ops : list (Z * cl)) (results : list bool) (stored : list (list Z * list Z * Z))
+(* second round: submissions through the real message router + msg server with outgoing batches [bs] in state
+   (token contract bytes, batch nonce, timeout), attestations written raw under a foreign key, export / import of
+   genesis; [stored] = (raw key, votes, stored body) read back at the end *)
+| CGen (K : list Z) (bs : list (list Z * Z * Z)) (steps : list gstep) (stored : list (list Z * list Z * cl))
+(* ValidateEthAddress / HexToAddress on one text *)
+| CEth (s : list Z) (got : option (list Z))
+with gstep :=
+| GSub (v : Z) (c : cl) (ok : bool)
+| GStale (key : list Z) (c : cl) (votes : list Z)
+| GReimport.
 
 Definition opt_eqb (a b : option Z) : bool :=
   match a, b with None, None => true | Some x, Some y => x =? y | _, _ => false end.
@@ -60,6 +70,38 @@ Definition att_matches (a : att) (o : list Z * list Z * Z) : bool :=
   let '(k, votes, src) := o in
   text_eqb (a_key a) (bytes k) && list_eqb N.eqb (a_votes a) (map Z.to_N votes) && N.eqb (a_src a) (Z.to_N src).
 
+Definition batches_of (bs : list (list Z * Z * Z)) : list batch :=
+  map (fun b => let '(a, n, t) := b in (bytes a, Z.to_N n, Z.to_N t)) bs.
+
+(** one step of a second-round history; [None] = the per-step result differs from the implementation's *)
+Definition gstep_run (K : text) (bs : list batch) (si : state * N) (st : gstep) : option (state * N) :=
+  let '(s, i) := si in
+  match st with
+  | GSub v x ok =>
+      let '(s', ok') := attest_g (ms_gate bs) K s i (Z.to_N v) (claim_of x) in
+      if Bool.eqb ok ok' then Some (s', N.succ i) else None
+  | GStale key x votes =>
+      let c := claim_of x in
+      let vs := map Z.to_N votes in
+      Some ({| atts := atts s ++ [{| a_key := bytes key; a_src := i; a_body := c; a_votes := vs |}];
+               lasts := fold_left (fun ls v => (v, chain_of c, nonce_of c) :: ls) vs (lasts s) |}, N.succ i)
+  | GReimport => Some (reimport K s, i)
+  end.
+
+Fixpoint gsteps (K : text) (bs : list batch) (si : state * N) (l : list gstep) : option state :=
+  match l with
+  | [] => Some (fst si)
+  | st :: r => match gstep_run K bs si st with Some si' => gsteps K bs si' r | None => None end
+  end.
+
+Definition att_matches_body (a : att) (o : list Z * list Z * cl) : bool :=
+  let '(k, votes, body) := o in
+  text_eqb (a_key a) (bytes k) && list_eqb N.eqb (a_votes a) (map Z.to_N votes)
+  && String.eqb (c_type (a_body a)) (c_type (claim_of body)) && text_eqb (path (a_body a)) (path (claim_of body)).
+
+Definition opt_text_eqb (a : option text) (b : option (list Z)) : bool :=
+  match a, b with None, None => true | Some x, Some y => text_eqb x (bytes y) | _, _ => false end.
+
 Definition check (c : case) : bool :=
   match c with
   | CHash x got => text_eqb (claim_hash (claim_of x)) (bytes got)
@@ -70,4 +112,11 @@ Definition check (c : case) : bool :=
       list_eqb Bool.eqb oks results
       && Nat.eqb (List.length (atts s)) (List.length stored)
       && forallb (fun o => existsb (fun a => att_matches a o) (atts s)) stored
+  | CGen K bs steps stored =>
+      match gsteps (bytes K) (batches_of bs) (init, 0%N) steps with
+      | None => false
+      | Some s => Nat.eqb (List.length (atts s)) (List.length stored)
+                  && forallb (fun o => existsb (fun a => att_matches_body a o) (atts s)) stored
+      end
+  | CEth s got => opt_text_eqb (eth_parse (bytes s)) got
   end.
